@@ -52,6 +52,8 @@ type NodeSpec struct {
 	ZeroValueErrors bool `json:"zero_value_errors,omitempty"`
 	// CauselessErrors: this node reports its injected faults with an application error type whose Cause() is nil
 	CauselessErrors bool `json:"causeless_errors,omitempty"`
+	// CancelErrors: this node reports its injected faults as context.Canceled (plain or wrapped)
+	CancelErrors bool `json:"cancel_errors,omitempty"`
 }
 
 func (n *NodeSpec) DisplayName() string {
@@ -168,6 +170,7 @@ func Build(sc *Scenario, opt Options) *Run {
 		k.Idx, k.Name, k.Qual, k.KindV, k.Ord, k.Log, k.Hook = i, ns.Name, ns.Qual, ns.Kind, ns.Ord, r.Log, opt.Hook
 		k.ZeroErr = ns.ZeroValueErrors
 		k.CauseErr = ns.CauselessErrors
+		k.CancelErr = ns.CancelErrors
 		if ns.ProvisionalOrd != nil {
 			k.Ord = *ns.ProvisionalOrd
 			final, outer := ns.Ord, k.Hook
